@@ -559,7 +559,16 @@ def describe_wrapper(k, w, rqtag):
     return d
 
 
-def classify(case, diff, eff_close):
+def evaluate(case, outcome, fields, problems):
+    """the property on one in-domain case -> list of (aspect, expected, observed); [] = the composed request is right"""
+    if outcome[0] in ("reject", "crash"):
+        return [("request composed", "a request", outcome[1])]
+    if outcome[0] == "ok-unreadable" or problems:
+        return [("well-formed OFX file", "readable by the library and by the independent reader", (problems or ["?"])[0])]
+    return predicate(case, fields, outcome[2])
+
+
+def classify(case, diff):
     """name the defect behind ONE difference (known findings are listed by these keys)"""
     aspect, want, got = diff
 
@@ -575,8 +584,6 @@ def classify(case, diff, eff_close):
         return "entity-reference-in-value-unescaped"
     if case["op"]["kind"] == "tax" and aspect == "TAX1099RQ ACCTNUM" and got == [] and case["op"]["acctnum"]:
         return "request_tax1099-drops-acctnum"
-    if not eff_close and any(has_markup(s) for s in case_strings(case)):
-        return "unclosed-no-escaping"
     return "composed-request-differs:" + re.sub(r"\W+", "-", aspect)
 
 
@@ -814,6 +821,24 @@ def observe(case):
     return ("ok", header, tree), fields, problems
 
 
+def _observe_worker(case):
+    try:
+        return observe(case)
+    except Exception as e:              # a harness failure must not pass silently
+        return ("harness-error", "%s: %s" % (type(e).__name__, e)), None, None
+
+
+def observe_all(cases):
+    """observe() over all cases, in forked worker processes (the library's convert() dominates the run time)"""
+    import multiprocessing as mp
+    n = min(8, C.NCPU)
+    if len(cases) < 64 or n < 2:
+        return [_observe_worker(c) for c in cases]
+    ctx = mp.get_context("fork")
+    with ctx.Pool(n) as pool:
+        return pool.map(_observe_worker, cases, chunksize=16)
+
+
 def run(rep, tier, rng):
     import ofxtools.Client as CL
     from ofxtools.models.i18n import LANG_CODES
@@ -841,8 +866,10 @@ def run(rep, tier, rng):
         seen_fail.add((key, what))
         rep.failures.append(C.Failure(key, what, dict(case=case, **extra)))
 
-    for origin, case in cases:
-        outcome, fields, problems = observe(case)
+    observed = observe_all([c for _, c in cases])
+    for (origin, case), (outcome, fields, problems) in zip(cases, observed):
+        if outcome[0] == "harness-error":
+            raise RuntimeError("harness error on %s: %s" % (describe_case(case), outcome[1]))
         dom = in_domain(case, LANG_CODES, accttypes)
         eff = effective(case)
         refusal_expected = False
@@ -859,24 +886,25 @@ def run(rep, tier, rng):
             if outcome[0] not in ("reject", "crash"):
                 fail("v2-unclosed-not-refused", "version %s with close_elements=False was composed instead of refused" % v_eff, case)
         elif dom:
-            bad = None
-            if outcome[0] in ("reject", "crash"):
-                bad = [("request composed", "a request", outcome[1])]
-            elif outcome[0] == "ok-unreadable" or problems:
-                bad = [("well-formed OFX file", "readable", (problems or ["?"])[0])]
-            else:
-                bad = predicate(case, fields, outcome[2])
+            bad = evaluate(case, outcome, fields, problems)
+            twin_aspects = None
+            if bad and not eff_close(case) and any(has_markup(s) for s in case_strings(case)):
+                # is this the recorded defect of the unclosed writer?  yes for the differences that vanish when the
+                # same request is written with end tags
+                twin = closed_twin(case)
+                t_out, t_fields, t_problems = observe(twin)
+                twin_aspects = {b[0] for b in evaluate(twin, t_out, t_fields, t_problems)}
+                model_case, model_outcome, problems = twin, t_out, t_problems
             keys = []
-            for b in bad or []:
-                key = classify(case, b, eff_close(case))
+            for b in bad:
+                if twin_aspects is not None and b[0] not in twin_aspects:
+                    key = "unclosed-no-escaping"
+                else:
+                    key = classify(case, b)
                 if key not in keys:
                     keys.append(key)
                     what = "%s: %s: expected %r, composed request has %r" % (describe_case(case), b[0], b[1], b[2])
                     fail(key, what, case, differences=[list(map(repr, x)) for x in bad[:6]])
-            if "unclosed-no-escaping" in keys:
-                # the recorded defect of the unclosed writer: compare the model on the closed twin instead
-                model_case = closed_twin(case)
-                model_outcome, _, problems = observe(model_case)
         if model_outcome[0] == "ok-unreadable":
             if not eff_close(model_case) and any(has_markup(s) for s in case_strings(model_case)):
                 # out-of-domain input hitting the same recorded defect of the unclosed writer: compare the closed twin
